@@ -103,7 +103,7 @@ def edges(ctx, P):
     ci = P.classes.get("StateDigraph")
     if ci is None or "action_at_blockage" not in ci.methods:
         raise AnalysisError("StateDigraph.action_at_blockage not found")
-    fn = ci.methods["action_at_blockage"]
+    fn = rules.temporaries_free(ci.methods["action_at_blockage"])
     params = [a.arg for a in fn.args.args][1:]
     found = False
     for lp in [x for x in ast.walk(fn) if isinstance(x, ast.For)]:
@@ -139,6 +139,7 @@ def detector_shape(ctx, P):
     ob = ctx.ob("DETP", "detect_deadlock is a pure function of the state digraph (no memo, no early exit before the component scan); action_at_attach_server re-adds edges for every entry of the node's blocked queue")
     ci = P.classes["StateDigraph"]
     fn = ci.methods.get("detect_deadlock")
+    fn = rules.temporaries_free(fn) if fn is not None else None
     if fn is None:
         raise AnalysisError("StateDigraph.detect_deadlock not found")
     writes = [x for x in ast.walk(fn) if isinstance(x, (ast.Assign, ast.AugAssign)) and any(isinstance(t, ast.Attribute) for t in (x.targets if isinstance(x, ast.Assign) else [x.target]))]
@@ -166,6 +167,7 @@ def detector_shape(ctx, P):
                 ctx.violation(ob, "R10.detector-pure", "StateDigraph.detect_deadlock", unparse(r), "early-exit-before-scan", "the detector answers before it has looked at the graph", loc(r))
     # re-added edges
     fn = ci.methods.get("action_at_attach_server")
+    fn = rules.temporaries_free(fn) if fn is not None else None
     if fn is None:
         raise AnalysisError("StateDigraph.action_at_attach_server not found")
     ps = [a.arg for a in fn.args.args][1:]
@@ -225,17 +227,28 @@ def loop(ctx, P, iters):
     if len(whiles) == 1:
         fr = Frame(sim, cls, fn)
         fr._locals = func_locals(fn)
+        # statements after the loop: a `break` continues there, so the breaking iteration is judged together with them (up to the clock advance)
+        after = []
+        for blk in [fn.body]:
+            if whiles[0] in blk:
+                after = blk[blk.index(whiles[0]) + 1:]
         for st in w.block(whiles[0].body, [State()], fr):
             if st.status == "raise":
                 continue
             n_iter += 1
-            check_iteration(list(st.events), viol, st, ob)
+            if st.status == "break" and after:
+                for st2 in w.block(after, [st.fork(status="normal")], fr):
+                    evs2 = list(st2.events)
+                    cut = [i for i, e in enumerate(evs2) if e.kind == "assign" and e.d["target"] == "self.current_time" and i >= len(st.events)]
+                    check_iteration(evs2[: cut[0] + 1] if cut else evs2, viol, st2, ob)
+            else:
+                check_iteration(list(st.events), viol, st, ob)
     for st in w.paths_of(cls, fn):
         if st.status == "raise":
             continue
         evs = list(st.events)
-        # split into iterations
-        i = 0
+        # split into iterations (`while True ... break`: the per-iteration analysis above covers every iteration; only the epilogue is read here)
+        i = len(evs) if (whiles and isinstance(whiles[0].test, ast.Constant)) else 0
         while i < len(evs):
             if evs[i].kind == "iter":
                 j = i + 1
